@@ -176,11 +176,12 @@ func parseUint64(lex *lexer.PeekingLexer) (uint64, error) {
 		}
 	}
 	tok := lex.Next()
-	if l, err := strconv.ParseUint(tok.Value, 10, 64); err == nil {
+	// the token may be a prefixed literal (0x10, 0o20, 0b1, 017), which vector lengths and the expanded syntax accept
+	// and read the same way (a leading zero means octal there)
+	if l, err := strconv.ParseUint(tok.Value, 0, 64); err == nil {
 		return l, nil
 	}
-	// the token may be a prefixed literal (0x10, 0o20, 0b1), which vector lengths and the expanded syntax accept
-	if l, err := strconv.ParseUint(tok.Value, 0, 64); err == nil {
+	if l, err := strconv.ParseUint(tok.Value, 10, 64); err == nil {
 		return l, nil
 	}
 	return 0, &participle.ParseError{
